@@ -311,6 +311,9 @@ def _rand_struct(rng, schemas, c, mode, depth, big=0.25):
             if not x and mode == "lib":
                 val.append([])
                 continue
+            if x and rng.random() < 0.2:      # items without any field set (zero bytes) in first / middle position
+                for _ in range(rng.randrange(1, 3)):
+                    x.insert(rng.randrange(len(x)), [[] for _ in schemas[f["inner"] - 1]["fields"]])
         elif k == "ids":
             n = rng.randrange(1 if mode == "lib" else 0, 7)
             x = [rng.choice([[rng.randrange(256), 0], [rng.randrange(256), rng.randrange(256)], [0, 0], [255, 255],
@@ -577,7 +580,9 @@ def run(ctx):
                 "from spec/codec/TlvStruct*.tla (generic schemas: bound profiles; real schemas: covering family) or drawn by "
                 "the seeded driver and validated by TlvStruct_Trace; non-trivial = at least one field set")
     ctx.assume("encode side: a set field whose value serialises to nothing (empty bytes/str/list, nested message without "
-               "fields) is not emitted by the library and is outside the claim (DESIGN 4.2); list items have a non-empty encoding",
+               "fields) is not emitted by the library and is outside the claim (DESIGN 4.2); a list item without any field set "
+               "(zero bytes) is part of the claim in first / middle position, where its separators carry it; as the LAST item "
+               "it cannot be told from no item (the unmodified list splitter ignores an empty tail) and is outside the claim",
                "fields whose annotation has no serialiser (float) are not encodable and stay unset",
                "conformant accessory = canonical TLV8 (255-byte fragments, an empty value is one empty item), fields in any "
                "order, lists joined by one 00 00 separator, 16-bit ids packed little endian",
